@@ -1,4 +1,5 @@
 import Driver.Sess
 namespace DrvC10
-def run (c : Proto.Case) : Proto.CaseOut := DrvSess.run c
+def run (c : Proto.Case) : Proto.CaseOut :=
+  if (DrvSess.cfgStr c "kind" "").startsWith "sql" then DrvSess.runSql c else DrvSess.run c
 end DrvC10
